@@ -2,7 +2,10 @@
 
 package p2pke
 
-import "sync/atomic"
+import (
+	"sync/atomic"
+	"time"
+)
 
 // Verification hooks (build tag verif): read-only views of session and channel
 // state, and a setter for the outbound counter (to reach MaxNonce in tests).
@@ -37,3 +40,51 @@ const (
 	VerifMaxNonce           = MaxNonce
 	VerifNoncePostHandshake = noncePostHandshake
 )
+
+// VerifSlotInfo describes one session slot of a channel.
+type VerifSlotInfo struct {
+	Present   bool
+	IsInit    bool
+	HsIndex   uint8
+	IDRank    uint64 // first 8 bytes of the slot's session id (ordering of competing handshakes)
+	RemoteKey []byte // marshalled remote public key, nil if not yet known
+	Session   *Session
+}
+
+// VerifSlotInfos reports the three slots (previous, current, next).
+func (c *Channel) VerifSlotInfos() (ret [3]VerifSlotInfo) {
+	c.mu.RLock()
+	defer c.mu.RUnlock()
+	for i, se := range c.sessions {
+		if se.Session == nil {
+			continue
+		}
+		info := VerifSlotInfo{Present: true, IsInit: se.Session.isInit, HsIndex: se.Session.hsIndex, Session: se.Session}
+		for _, b := range se.ID[:8] {
+			info.IDRank = info.IDRank<<8 | uint64(b)
+		}
+		if rk := se.Session.RemoteKey(); !rk.IsZero() {
+			info.RemoteKey = append([]byte{}, rk.Data...)
+		}
+		ret[i] = info
+	}
+	return ret
+}
+
+// VerifAge makes the channel and its sessions d older: lastReceived and every
+// session's expiry move d into the past (time is otherwise read from the wall clock).
+func (c *Channel) VerifAge(d time.Duration) {
+	c.mu.Lock()
+	defer c.mu.Unlock()
+	c.lastReceived = c.lastReceived.Add(-d)
+	for _, se := range c.sessions {
+		if se.Session != nil {
+			se.Session.expiresAt = se.Session.expiresAt.Add(-d)
+		}
+	}
+}
+
+// VerifTimers reports whether the rekey and handshake timers are pending.
+func (c *Channel) VerifTimers() (rekey, handshake bool) {
+	return c.rekeyTimer.IsPending(), c.handshakeTimer.IsPending()
+}
